@@ -290,7 +290,9 @@ theorem insert_big_value (s : Settings) (id v : Nat) (hlen : s.entries.length < 
 /-- what one iteration of `Settings::decode` does with a pair that has been read -/
 def step (s : Settings) (p : Nat × Nat) : Except SettingsError Settings :=
   if isForbidden p.1 then .error (.invalidSettingId p.1)
-  else if isSupported p.1 then insert s p.1 p.2 else .ok s
+  else if isSupported p.1 then
+    (if badValue p.1 p.2 then .error (.invalidSettingValue p.1 p.2) else insert s p.1 p.2)
+  else .ok s
 
 def foldPairs : Settings → List (Nat × Nat) → Except SettingsError Settings
   | s, [] => .ok s
@@ -320,18 +322,21 @@ theorem inv_length {s : Settings} (h : Inv s) : s.entries.length < SETTINGS_LEN 
 /-- the errors `decode` can produce, with what causes each -/
 def ErrKind (e : SettingsError) : Prop :=
   e = .malformed ∨ (∃ id, e = .invalidSettingId id ∧ isForbidden id = true) ∨
-  (∃ id, e = .repeated id ∧ isSupported id = true)
+  (∃ id, e = .repeated id ∧ isSupported id = true) ∨
+  (∃ id v, e = .invalidSettingValue id v ∧ isSupported id = true ∧ badValue id v = true)
 
 theorem errKind_ne_exceeded {e : SettingsError} (h : ErrKind e) : e ≠ .exceeded := by
-  rcases h with rfl | ⟨id, rfl, _⟩ | ⟨id, rfl, _⟩ <;> simp
+  rcases h with rfl | ⟨id, rfl, _⟩ | ⟨id, rfl, _⟩ | ⟨id, v, rfl, _⟩ <;> simp
 
 theorem step_spec (s : Settings) (p : Nat × Nat) (hi : Inv s) (h1 : p.1 < 2^62) (h2 : p.2 < 2^62) :
     (isForbidden p.1 = true ∧ step s p = .error (.invalidSettingId p.1)) ∨
     (isForbidden p.1 = false ∧ isSupported p.1 = false ∧ step s p = .ok s) ∨
-    (isForbidden p.1 = false ∧ isSupported p.1 = true ∧ (∃ e ∈ s.entries, e.1 = p.1) ∧
+    (isForbidden p.1 = false ∧ isSupported p.1 = true ∧ badValue p.1 p.2 = false ∧ (∃ e ∈ s.entries, e.1 = p.1) ∧
       step s p = .error (.repeated p.1)) ∨
-    (isForbidden p.1 = false ∧ isSupported p.1 = true ∧ (∀ e ∈ s.entries, e.1 ≠ p.1) ∧
-      step s p = .ok ⟨s.entries ++ [p]⟩ ∧ Inv ⟨s.entries ++ [p]⟩) := by
+    (isForbidden p.1 = false ∧ isSupported p.1 = true ∧ badValue p.1 p.2 = false ∧ (∀ e ∈ s.entries, e.1 ≠ p.1) ∧
+      step s p = .ok ⟨s.entries ++ [p]⟩ ∧ Inv ⟨s.entries ++ [p]⟩) ∨
+    (isForbidden p.1 = false ∧ isSupported p.1 = true ∧ badValue p.1 p.2 = true ∧
+      step s p = .error (.invalidSettingValue p.1 p.2)) := by
   have hlen := inv_length hi
   unfold step
   by_cases hf : isForbidden p.1 = true
@@ -342,11 +347,15 @@ theorem step_spec (s : Settings) (p : Nat × Nat) (hi : Inv s) (h1 : p.1 < 2^62)
     by_cases hs : isSupported p.1 = true
     · right
       rw [if_pos hs]
+      by_cases hb : badValue p.1 p.2 = true
+      · right; right; exact ⟨hf', hs, hb, by rw [if_pos hb]⟩
+      have hb' : badValue p.1 p.2 = false := by simpa using hb
+      rw [if_neg hb]
       by_cases hin : ∃ e ∈ s.entries, e.1 = p.1
-      · left; exact ⟨hf', hs, hin, insert_repeated s p.1 p.2 hlen h1 h2 hin⟩
-      · right
+      · left; exact ⟨hf', hs, hb', hin, insert_repeated s p.1 p.2 hlen h1 h2 hin⟩
+      · right; left
         have hnot : ∀ e ∈ s.entries, e.1 ≠ p.1 := fun e he heq => hin ⟨e, he, heq⟩
-        refine ⟨hf', hs, hnot, insert_ok s p.1 p.2 hlen h1 h2 hnot, ?_, ?_⟩
+        refine ⟨hf', hs, hb', hnot, insert_ok s p.1 p.2 hlen h1 h2 hnot, ?_, ?_⟩
         · intro e he
           rcases List.mem_append.mp he with h | h
           · exact hi.1 e h
@@ -367,6 +376,7 @@ def kept (ps : List (Nat × Nat)) : List (Nat × Nat) := ps.filter (fun p => isS
 
 theorem foldPairs_ok (s : Settings) (ps : List (Nat × Nat)) (hi : Inv s) (hf : Fits ps)
     (hnf : ∀ p ∈ ps, isForbidden p.1 = false)
+    (hnb : ∀ p ∈ ps, isSupported p.1 = true → badValue p.1 p.2 = false)
     (hnd : ((s.entries ++ kept ps).map (·.1)).Nodup) :
     foldPairs s ps = .ok ⟨s.entries ++ kept ps⟩ := by
   induction ps generalizing s with
@@ -374,15 +384,18 @@ theorem foldPairs_ok (s : Settings) (ps : List (Nat × Nat)) (hi : Inv s) (hf : 
   | cons p r ih =>
     obtain ⟨⟨h1, h2⟩, hr⟩ := fits_cons.mp hf
     have hnf' : ∀ q ∈ r, isForbidden q.1 = false := fun q hq => hnf q (List.mem_cons_of_mem _ hq)
+    have hnb' : ∀ q ∈ r, isSupported q.1 = true → badValue q.1 q.2 = false :=
+      fun q hq => hnb q (List.mem_cons_of_mem _ hq)
     have hp := hnf p (List.mem_cons_self ..)
     simp only [foldPairs]
-    rcases step_spec s p hi h1 h2 with ⟨hx, _⟩ | ⟨_, hs, hst⟩ | ⟨_, hs, hin, _⟩ | ⟨_, hs, _, hst, hi'⟩
+    rcases step_spec s p hi h1 h2 with ⟨hx, _⟩ | ⟨_, hs, hst⟩ | ⟨_, hs, _, hin, _⟩ | ⟨_, hs, _, _, hst, hi'⟩ |
+      ⟨_, hs, hb, _⟩
     · rw [hp] at hx; cases hx
     · rw [hst]
       simp only
       have hk : kept (p :: r) = kept r := by simp [kept, hs]
       rw [hk] at hnd ⊢
-      exact ih s hi hr hnf' hnd
+      exact ih s hi hr hnf' hnb' hnd
     · exfalso
       have hk : kept (p :: r) = p :: kept r := by simp [kept, hs]
       rw [hk, List.map_append, List.nodup_append] at hnd
@@ -392,45 +405,58 @@ theorem foldPairs_ok (s : Settings) (ps : List (Nat × Nat)) (hi : Inv s) (hf : 
       simp only
       have hk : kept (p :: r) = p :: kept r := by simp [kept, hs]
       rw [hk] at hnd ⊢
-      rw [ih ⟨s.entries ++ [p]⟩ hi' hr hnf' (by simpa using hnd)]
+      rw [ih ⟨s.entries ++ [p]⟩ hi' hr hnf' hnb' (by simpa using hnd)]
       simp
+    · rw [hnb p (List.mem_cons_self ..) hs] at hb; cases hb
 
 theorem foldPairs_err (s : Settings) (ps : List (Nat × Nat)) (hi : Inv s) (hf : Fits ps)
-    (h : (∃ p ∈ ps, isForbidden p.1 = true) ∨ ¬ ((s.entries ++ kept ps).map (·.1)).Nodup) :
+    (h : (∃ p ∈ ps, isForbidden p.1 = true) ∨ ¬ ((s.entries ++ kept ps).map (·.1)).Nodup ∨
+      (∃ p ∈ ps, isSupported p.1 = true ∧ badValue p.1 p.2 = true)) :
     ∃ e, foldPairs s ps = .error e ∧ ErrKind e := by
   induction ps generalizing s with
   | nil =>
-    rcases h with ⟨p, hp, _⟩ | h
+    rcases h with ⟨p, hp, _⟩ | h | ⟨p, hp, _⟩
     · cases hp
     · exact absurd (by simpa [kept] using hi.2) h
+    · cases hp
   | cons p r ih =>
     obtain ⟨⟨h1, h2⟩, hr⟩ := fits_cons.mp hf
     simp only [foldPairs]
-    rcases step_spec s p hi h1 h2 with ⟨hx, hst⟩ | ⟨hx, hs, hst⟩ | ⟨_, hs, hin, hst⟩ | ⟨hx, hs, _, hst, hi'⟩
+    rcases step_spec s p hi h1 h2 with ⟨hx, hst⟩ | ⟨hx, hs, hst⟩ | ⟨_, hs, _, hin, hst⟩ | ⟨hx, hs, hb, _, hst, hi'⟩ |
+      ⟨_, hs, hb, hst⟩
     · rw [hst]; exact ⟨_, rfl, Or.inr (Or.inl ⟨_, rfl, hx⟩)⟩
     · rw [hst]
       simp only
       have hk : kept (p :: r) = kept r := by simp [kept, hs]
       rw [hk] at h
       apply ih s hi hr
-      rcases h with ⟨q, hq, hqf⟩ | h
+      rcases h with ⟨q, hq, hqf⟩ | h | ⟨q, hq, hqs, hqb⟩
       · left
         rcases List.mem_cons.mp hq with rfl | hq
         · rw [hx] at hqf; cases hqf
         · exact ⟨q, hq, hqf⟩
-      · right; exact h
-    · rw [hst]; exact ⟨_, rfl, Or.inr (Or.inr ⟨_, rfl, hs⟩)⟩
+      · right; left; exact h
+      · right; right
+        rcases List.mem_cons.mp hq with rfl | hq
+        · rw [hs] at hqs; cases hqs
+        · exact ⟨q, hq, hqs, hqb⟩
+    · rw [hst]; exact ⟨_, rfl, Or.inr (Or.inr (Or.inl ⟨_, rfl, hs⟩))⟩
     · rw [hst]
       simp only
       have hk : kept (p :: r) = p :: kept r := by simp [kept, hs]
       rw [hk] at h
       apply ih ⟨s.entries ++ [p]⟩ hi' hr
-      rcases h with ⟨q, hq, hqf⟩ | h
+      rcases h with ⟨q, hq, hqf⟩ | h | ⟨q, hq, hqs, hqb⟩
       · left
         rcases List.mem_cons.mp hq with rfl | hq
         · rw [hx] at hqf; cases hqf
         · exact ⟨q, hq, hqf⟩
-      · right; simpa using h
+      · right; left; simpa using h
+      · right; right
+        rcases List.mem_cons.mp hq with rfl | hq
+        · rw [hb] at hqb; cases hqb
+        · exact ⟨q, hq, hqs, hqb⟩
+    · rw [hst]; exact ⟨_, rfl, Or.inr (Or.inr (Or.inr ⟨_, _, rfl, hs, hb⟩))⟩
 
 /-! ### the decoder, on bytes -/
 
@@ -485,7 +511,10 @@ theorem decodeLoop_succ (f : Nat) (s : Settings) (bs : Bytes) (h : bs ≠ []) :
     · simp [hf]
     · by_cases hs : isSupported id = true
       · simp only [hf, hs, if_true, if_false, Bool.false_eq_true]
-        cases insert s id v <;> rfl
+        by_cases hb : badValue id v = true
+        · simp [hb]
+        · simp only [hb, if_false, Bool.false_eq_true]
+          cases insert s id v <;> rfl
       · simp only [hf, hs, if_false, Bool.false_eq_true]
 
 /-- `Settings::decode`'s loop against the RFC parse of the same bytes. -/
@@ -523,7 +552,8 @@ theorem decodeLoop_spec (f : Nat) (s : Settings) (bs : Bytes) (hwf : WF bs) (hle
           obtain ⟨hre, b1, b2, hwf2, hl2⟩ := readEntry_some hwf h1 h2
           rw [hre]
           simp only
-          rcases step_spec s (id, v) hi b1 b2 with ⟨hx, hst⟩ | ⟨hx, hs, hst⟩ | ⟨_, hs, hin, hst⟩ | ⟨hx, hs, _, hst, hi'⟩
+          rcases step_spec s (id, v) hi b1 b2 with ⟨hx, hst⟩ | ⟨hx, hs, hst⟩ | ⟨_, hs, _, hin, hst⟩ |
+            ⟨hx, hs, _, _, hst, hi'⟩ | ⟨_, hs, hb, hst⟩
           · -- forbidden identifier
             rw [hst]
             cases h3 : parseFuel f r2 with
@@ -548,7 +578,7 @@ theorem decodeLoop_spec (f : Nat) (s : Settings) (bs : Bytes) (hwf : WF bs) (hle
           · -- repeated supported identifier
             rw [hst]
             cases h3 : parseFuel f r2 with
-            | none => exact ⟨_, rfl, Or.inr (Or.inr ⟨_, rfl, hs⟩)⟩
+            | none => exact ⟨_, rfl, Or.inr (Or.inr (Or.inl ⟨_, rfl, hs⟩))⟩
             | some ps =>
               simp only
               have := ih s r2 hwf2 (by omega) hi
@@ -566,6 +596,16 @@ theorem decodeLoop_spec (f : Nat) (s : Settings) (bs : Bytes) (hwf : WF bs) (hle
               simp only
               refine ⟨fits_cons.mpr ⟨⟨b1, b2⟩, this.1⟩, ?_⟩
               simp [foldPairs, hst, this.2]
+          · -- a 0/1 setting with another value
+            rw [hst]
+            cases h3 : parseFuel f r2 with
+            | none => exact ⟨_, rfl, Or.inr (Or.inr (Or.inr ⟨_, _, rfl, hs, hb⟩))⟩
+            | some ps =>
+              simp only
+              have := ih s r2 hwf2 (by omega) hi
+              rw [h3] at this
+              refine ⟨fits_cons.mpr ⟨⟨b1, b2⟩, this.1⟩, ?_⟩
+              simp [foldPairs, hst]
 
 theorem decode_spec (bs : Bytes) (hwf : WF bs) :
     match parse bs with
@@ -592,6 +632,30 @@ theorem supported_iff_known (id : Nat) : isSupported id = true ↔ id ∈ known 
 theorem hasReserved_iff (ps : List (Nat × Nat)) :
     hasReserved ps = true ↔ ∃ p ∈ ps, isForbidden p.1 = true := by
   simp [hasReserved, isForbidden, forbidden_eq_reserved]
+
+/-- the identifiers `Settings::decode` tests for a value above 1 (`SettingId::is_boolean`, read from the
+    source by the translator) are the ones RFC 9297 §2.1.1 / RFC 8441 §3 restrict to 0 and 1 (D-13b: on a
+    source without that test the list is empty and this fails to prove) -/
+theorem boolean_eq_spec : booleanIds = H3.Spec.Settings.boolean01 := by decide
+
+theorem boolean_supported (id : Nat) (h : H3.Spec.Settings.boolean01.contains id = true) :
+    isSupported id = true := by
+  simp only [H3.Spec.Settings.boolean01, H3.Spec.Settings.ENABLE_CONNECT_PROTOCOL, H3.Spec.Settings.H3_DATAGRAM,
+    List.contains_eq_mem, List.mem_cons, List.not_mem_nil, or_false, decide_eq_true_eq] at h
+  rcases h with rfl | rfl <;> decide
+
+theorem badValue_eq (id v : Nat) :
+    badValue id v = (H3.Spec.Settings.boolean01.contains id && decide (1 < v)) := by
+  simp only [badValue, isBoolean, boolean_eq_spec]
+
+theorem hasBadFlag_iff (ps : List (Nat × Nat)) :
+    H3.Spec.Settings.hasBadFlag ps = true ↔ ∃ p ∈ ps, isSupported p.1 = true ∧ badValue p.1 p.2 = true := by
+  simp only [H3.Spec.Settings.hasBadFlag, List.any_eq_true, badValue_eq]
+  constructor
+  · rintro ⟨p, hp, h⟩
+    refine ⟨p, hp, boolean_supported p.1 ?_, h⟩
+    simp only [Bool.and_eq_true] at h; exact h.1
+  · rintro ⟨p, hp, _, h⟩; exact ⟨p, hp, h⟩
 
 theorem count_kept (ps : List (Nat × Nat)) (a : Nat) :
     List.count a ((kept ps).map (·.1)) = if isSupported a = true then occurrences ps a else 0 := by
@@ -730,12 +794,13 @@ theorem kept_nodup_of_nodup {ps : List (Nat × Nat)} (h : (ps.map (·.1)).Nodup)
 
 /-- decoding the payload `encode` writes for a reachable value -/
 theorem decode_encPairs (s : Settings) (hr : Reachable s)
-    (hnf : ∀ e ∈ s.entries, isForbidden e.1 = false) :
+    (hnf : ∀ e ∈ s.entries, isForbidden e.1 = false)
+    (hnb : ∀ e ∈ s.entries, isSupported e.1 = true → badValue e.1 e.2 = false) :
     decode (encPairs s.entries) = .ok ⟨kept s.entries⟩ := by
   obtain ⟨_, hf, hnd⟩ := reachable_inv hr
   have := decode_spec (encPairs s.entries) (encPairs_wf _ hf)
   rw [parse_encPairs _ hf] at this
-  rw [this.2, foldPairs_ok empty s.entries inv_empty hf hnf (by simpa [empty] using kept_nodup_of_nodup hnd)]
+  rw [this.2, foldPairs_ok empty s.entries inv_empty hf hnf hnb (by simpa [empty] using kept_nodup_of_nodup hnd)]
   simp [empty]
 
 theorem kept_eq_self {ps : List (Nat × Nat)} (h : ∀ e ∈ ps, isSupported e.1 = true) : kept ps = ps := by
@@ -988,5 +1053,39 @@ theorem flagOk_lookup (ps : List (Nat × Nat)) (id : Nat) :
     | 0 => rfl
     | 1 => rfl
     | (k+2) => trivial
+
+theorem lookup_mem {ps : List (Nat × Nat)} {id v : Nat} (h : ps.lookup id = some v) : (id, v) ∈ ps := by
+  induction ps with
+  | nil => simp at h
+  | cons p r ih =>
+    obtain ⟨a, b⟩ := p
+    by_cases he : id = a
+    · subst he
+      simp only [List.lookup_cons_self] at h
+      cases h; exact List.mem_cons_self ..
+    · rw [List.lookup_cons] at h
+      have : (id == a) = false := by simpa using he
+      simp only [this] at h
+      exact List.mem_cons_of_mem _ (ih h)
+
+/-- where only 0 and 1 occur, `value != 0` is the exact reading: on iff the value 1 is carried -/
+theorem flagExact_lookup (ps : List (Nat × Nat)) (id : Nat) (hid : H3.Spec.Settings.boolean01.contains id = true)
+    (hb : H3.Spec.Settings.hasBadFlag ps = false) :
+    H3.Spec.Settings.FlagExact ps id (((ps.lookup id).map (· != 0)).getD false) := by
+  unfold H3.Spec.Settings.FlagExact H3.Spec.Settings.carried
+  cases h : ps.lookup id with
+  | none => rfl
+  | some v =>
+    have hm := lookup_mem h
+    have hv : ¬ 1 < v := by
+      intro hv
+      have : H3.Spec.Settings.hasBadFlag ps = true := by
+        simp only [H3.Spec.Settings.hasBadFlag, List.any_eq_true]
+        exact ⟨(id, v), hm, by simp only [hid, Bool.true_and, decide_eq_true_eq]; exact hv⟩
+      rw [hb] at this; cases this
+    match v, hv with
+    | 0, _ => rfl
+    | 1, _ => rfl
+    | (k+2), hv => exact absurd (by omega) hv
 
 end H3.Config
